@@ -23,3 +23,5 @@ def run(chk):
     context_contracts.decorators(chk, "C14")   # a decorated submitter still receives (callback id, context) first
     from . import batcher
     batcher.check_consumer(chk, "C14")  # the callback id / invoke status read after START comes from the merged response: synchronous callers are released only after the merge
+    from . import c20
+    c20.strict_payload_decode(chk, "C14")   # "returns exactly the delivered payload": the record result() reads is decoded from the wire unchanged ('' stays '')
